@@ -105,8 +105,14 @@ class RecordsAnalysis:
     def batch_reader(self):
         paths, f = self.read_paths("read_batch")
         rets = [p for p in paths if p.outcome == "return"]
-        if len(rets) != 1:
-            raise AnalysisError(f"read_batch has {len(rets)} returning paths (expected 1)")
+        if not rets:
+            raise AnalysisError("read_batch has no returning path")
+        if len(rets) > 1:
+            # several accepting paths (e.g. a redundant re-check that forks on emptiness) are fine when they read and
+            # return the same thing; the first one is then representative
+            sums = {self._batch_summary(q) for q in rets}
+            if len(sums) != 1:
+                raise AnalysisError(f"read_batch has {len(rets)} returning paths that read or return different things")
         p = rets[0]
         cn = Canon()
         layout = []  # (stream label, size, wire term)
@@ -127,7 +133,8 @@ class RecordsAnalysis:
                 if isinstance(e[2], int):
                     pos[lab] = e[2]
             elif e[0] == "repeat":
-                count_repeat = e
+                if any(x[0] in ("xread", "read", "seek", "varint", "codec", "alloc") for b in e[2] for x in b[1]) and count_repeat is None:
+                    count_repeat = e  # the loop that reads the records (later stream-free loops over them are not it)
             elif e[0] == "alloc":
                 cn.stream(e[1])
         res = p.value
@@ -139,6 +146,25 @@ class RecordsAnalysis:
                     fields[name] = (t[1], t[2])
         return {"fn": f, "path": p, "paths": paths, "layout": layout, "fields": fields, "seeks": seeks, "repeat": count_repeat,
                 "result": res}
+
+    def _batch_summary(self, p):
+        from .descr import event_of
+        cn = Canon()
+        evs = []
+        for e in p.effects:
+            if e[0] == "repeat" and not any(x[0] in ("xread", "read", "seek", "varint", "codec", "write", "wvarint", "alloc")
+                                            for b in e[2] for x in b[1]):
+                continue  # a loop that touches no stream (a comprehension over the records already read)
+            if e[0] in ("xread", "read", "seek", "alloc", "repeat", "varint"):
+                try:
+                    evs.append(repr(event_of(e, cn))[:400] if e[0] != "repeat" else ("repeat", repr(cn.term(e[1]))))
+                except Exception:  # noqa: BLE001
+                    evs.append(e[0])
+        res = p.value
+        import re
+        anon = lambda t: re.sub(r"\('list', \d+\)", "('list',)", t)  # identity of a local list is not part of what is returned
+        flds = tuple(sorted((n, anon(repr(cn.term(term_of(v))))[:300]) for n, v in res.attrs.items())) if isinstance(res, InstV) else repr(res)
+        return (tuple(map(str, evs)), flds)
 
     # ------------------------------------------------------------------ writing
     def write_paths(self, name, args):
